@@ -275,10 +275,7 @@ def judge(prop, out, results, own):
                 continue
             bad_scn.add(scn)
             itype = next((st.get("itype") for st in s.get("steps", []) if st.get("op") == "queries"), "none")
-            storage = s.get("storage", "default")
             sig = {"invariant": inv, "index": itype, "class": cls}
-            if storage == "legacy":
-                sig["storage"] = "legacy"
             key = json.dumps(sig, sort_keys=True)
             sigs[key] = sigs.get(key, 0) + 1
             out.report(sig, f"{inv} {cls} [{var}] index={itype} kind={s.get('kind')} history={s.get('hist')}: predicate {ev.get('sql')} "
